@@ -298,7 +298,7 @@ def check(ctx, case):
 
 def shard_main(ctx):
     from hypothesis import given
-    n = {"quick": 700, "thorough": 15000}[ctx.tier]
+    n = {"quick": 1400, "thorough": 25000}[ctx.tier]
 
     @given(histories())
     def test(case):
